@@ -39,6 +39,21 @@ CHECKS = {
         design="2/C04",
         note=TRUSTED + " Leniencies excluded from Sound are listed in DESIGN.md (bare generics, fixed<-variadic tuple, NewType<-supertype).",
     ),
+    "C09": dict(
+        technique="TLA+ specs Scopes.tla (FunctionScope set/get_local/subscope/loop_scope/suppressing_subscope/combine + what the "
+        "visitor issues per statement) vs CFG.tla (independent collecting semantics: strict and liberal reaching definitions), "
+        "skeleton generator ScopeGen.tla; TLC checks Strict <= Reported <= Liberal at every use of every generated function body; "
+        "each body is rendered to Python, checked by the real visitor and the reported definition sets adjudicated by TLC "
+        "(ScopesTrace.tla)",
+        text="Model checking: every function body of <=4 (quick) / <=6 (thorough) statements over assignments, uses, calls, "
+        "if/while/while True/for (+else), with (suppressing or not), try/except/else/finally, return/raise/break/continue; the "
+        "scope-machine model is bound to the code by exhaustive replay (drift 0) and the real reports are judged by the oracle; "
+        "three named deviation classes (loop else, always-entered loop first iteration, loop body revisited after unconditional "
+        "exit) are known findings. Larger bodies by TLC simulation.",
+        design="2/C09",
+        note=TRUSTED + " Dead code (statements after return/raise/break/continue in the same block) is outside the grammar "
+        "(pyanalyze deliberately analyses it as fall-through); nested functions/global/nonlocal are not generated yet.",
+    ),
     "C11": dict(
         technique="TLA+ state machine Suppression.tla (show_error decision chain, unused/bare ignore passes) vs declarative "
         "RefD, exhaustive TLC; TLC-enumerated files realised as source, checked by the real visitor with the ShowError hook, "
@@ -49,6 +64,36 @@ CHECKS = {
         "declarative reference inside TLC. Longer files by TLC simulation.",
         design="2/C11",
         note=TRUSTED + " Diagnostics are realised with module-level lambdas (undefined_name, unsupported_operation).",
+    ),
+    "C14": dict(
+        technique="TLA+ specs ValueAlgebra.tla (ImplEq, ImplSameHash, ImplUnite) + Algebra.tla (ImplSubst, the semilattice / hash / "
+        "substitution laws, named deviation classes) checked by TLC on every triple of the bounded term space; each triple "
+        "replayed through the real unite_values / == / hash / can_assign / substitute_typevars and the real results adjudicated "
+        "by TLC (AlgebraTrace.tla: laws evaluated on the real result terms, Members via Member)",
+        text="Model checking over 38 terms (literals incl. unhashable ones, typed, generic, sequence, subclass, newtype, type "
+        "variables, unions incl. permuted and nested ones) x 6 type-variable maps, all triples; exhaustive replay into the real "
+        "value API with drift 0. Two defects were repaired (union hash, substitution into unions), the identity hash of "
+        "unhashable literals is a known finding.",
+        design="2/C14",
+        note=TRUSTED + " TypedDict, callable and annotated values are not in the term space yet.",
+    ),
+    "C15": dict(
+        technique="TLA+ spec TypeVarSolve.tla: typevar.solve as a fold machine (bottom, top, options; one action per branch, TLC's "
+        "interleavings of the Fold actions are the permutations of the bound multiset) and generic calls (pass 1 bound "
+        "generation, solver per type variable, pass 2 re-check) vs a denotational oracle; every TLC-enumerated multiset is given "
+        "to the real pyanalyze.typevar.resolve_bounds_map in every order and every declaration x parameter multiset is realised "
+        "as a generic function + call checked by the real visitor in every parameter order; adjudicated by TLC "
+        "(TypeVarSolveTrace.tla)",
+        text="Model checking: all multisets of <=3 (quick) / <=4 (thorough) bounds over 12 static values (Lower/Upper) + 3 "
+        "constraint lists + 2 OrBounds in every order, and 4 declarations of T x multisets of <=2 / <=3 parameters over 23 "
+        "(form, argument) kinds in every order: an accepted solution satisfies every bound, an unsatisfiable multiset is "
+        "diagnosed, the verdict is order-independent -- outside four named deviation classes of the raw bound API "
+        "(known_findings.jsonl); generic calls satisfy the property without exception. Real code bound by exhaustive replay "
+        "(drift 0) plus TLC simulation of larger multisets.",
+        design="2/C15",
+        note=TRUSTED + " A solution Any counts as satisfying every bound; multisets containing an Any bound are exempt from "
+        "'unsatisfiable => error'; one IsOneOf per type variable. The solver's input in calls is recorded by wrapping "
+        "pyanalyze.signature.resolve_bounds_map inside the harness process.",
     ),
     "C16": dict(
         technique="TLA+ state machine FixLoop.tla (add-ignores loop over the Suppression.tla machine) model-checked by TLC "
@@ -70,6 +115,21 @@ CHECKS = {
         "against the documented precedence. Malformed configurations must raise InvalidConfigOption.",
         design="2/C18",
         note=TRUSTED + " Three real options stand for the three option kinds.",
+    ),
+    "C19": dict(
+        technique="TLA+ spec Dispatch.tla (CPython operator protocol RefOp vs transcription ImplOp of _visit_binop_no_mvv / "
+        "_check_dunder_call / _composite_from_subscript_no_mvv / _get_attribute_from_known+_mro+fallback over abstract "
+        "method-table and attribute-lookup facts) checked exhaustively by TLC; every realisable TLC case realised with synthetic "
+        "classes, plus the literal universe x operators/indices/attribute names, checked by the real pyanalyze and evaluated by "
+        "real CPython; every observation adjudicated by TLC (DispatchTrace.tla: RefOp = real CPython, property verdict, ImplOp drift)",
+        text="Model checking: TLC explores every fact table (candidate method absent/NotImplemented/value/TypeError/IndexError/"
+        "other x signature verdict x type relation x operator; attribute-lookup facts) and proves diagnosed <=> CPython raises "
+        "and inferred literal = result outside eight named deviation classes; bound to the code by replaying all realisable "
+        "cases and the literal-universe expressions, each judged by TLC against the real CPython outcome; drift must be 0.",
+        design="2/C19",
+        note=TRUSTED + " CPython 3.12.1 as executed here is the oracle (the TLA model of its protocol is validated against it on "
+        "every observation). pyanalyze's signature/stub layer is not modelled: its verdict per candidate call is a recorded "
+        "fact. NAME.attr with attr in the documented ignored_end_of_reference default is excluded.",
     ),
 }
 
